@@ -563,6 +563,55 @@ def cross_chunk(arg):
     return "%s<-%s" % (tn, wn), n, fails
 
 
+def special_values_job(tn):
+    """zero, infinities and NaN through the expansion / multiword converters (each call under a 5 s alarm)"""
+    import signal
+    import warnings
+
+    import mpmath
+
+    import functional_algorithms.utils as U
+
+    warnings.simplefilter("ignore")
+    t = getattr(numpy, tn)
+    out = {"special-values/mpf2multiword": [], "special-values/mpf2expansion": [], "special-values/float2fraction[nan]": []}
+
+    class TO(Exception):
+        pass
+
+    def h(*a):
+        raise TO()
+
+    signal.signal(signal.SIGALRM, h)
+    ctx = mpmath.mp
+    with mpmath.workprec(FMT[t][1] + 10), numpy.errstate(all="ignore"):
+        for x in (t(0.0), t(numpy.inf), t(-numpy.inf), t(numpy.nan)):
+            m = U.float2mpf(ctx, x)
+            for name, conv, back in (("special-values/mpf2multiword", lambda: U.mpf2multiword(t, m), lambda w: U.multiword2mpf(ctx, w)), ("special-values/mpf2expansion", lambda: U.mpf2expansion(t, m), lambda w: U.expansion2mpf(ctx, w))):
+                signal.alarm(5)
+                try:
+                    w = conv()
+                    r = U.mpf2float(t, back(w))
+                    ok = bool(numpy.isnan(r)) if numpy.isnan(x) else bool(r == x)
+                    if not ok:
+                        out[name].append(dict(x=repr(x), words=[repr(u) for u in w], back=repr(r)))
+                except TO:
+                    out[name].append(dict(x=repr(x), problem="does not terminate within 5 s"))
+                except Exception as e:
+                    out[name].append(dict(x=repr(x), raised=repr(e)[:160]))
+                finally:
+                    signal.alarm(0)
+        # NaN has no fraction: silently returning a finite value turns NaN into infinity on the way back
+        try:
+            q = U.float2fraction(t(numpy.nan))
+            r = U.fraction2float(t, q)
+            if not numpy.isnan(r):
+                out["special-values/float2fraction[nan]"].append(dict(x="nan", fraction=str(q)[:40], back=repr(r)))
+        except (ValueError, TypeError):
+            pass  # refusing is fine
+    return tn, out
+
+
 def part_b(rep, tier):
     rnd = numpy.random.default_rng(core.SEED)
     jobs = []
@@ -600,6 +649,10 @@ def part_b(rep, tier):
     for tn, name in sorted(names):
         lst = agg.get((tn, name), [])
         rep.add(core.decided("C13/bounded/%s/%s" % (name, tn), PROP, not lst, functions=("utils.%s" % name.split("[")[0],), text="bounded stand-in: %s on %d inputs" % (name, seen.get(tn, 0)), detail=dict(failures=lst[:3], inputs=seen.get(tn, 0)), kind="bounded", solver="native-run", meta=dict(part="B", fails=lst[:3])))
+    with mp.get_context("fork").Pool(3) as pool:
+        for tn, out in pool.map(special_values_job, [t.__name__ for t in TYPES]):
+            for name, lst in sorted(out.items()):
+                rep.add(core.decided("C13/bounded/%s/%s" % (name, tn), PROP, not lst, functions=("utils.%s" % name.split("/")[1].split("[")[0],), text="bounded stand-in: zero, infinities and NaN through %s and back" % name.split("/")[1], detail=dict(failures=lst[:4]), kind="bounded", solver="native-run", meta=dict(part="B", fails=lst[:4], special=name)))
     rep.bounded.append(dict(what="float2bin, bin2float, float2mpf, mpf2float, fraction2float, mpf2expansion/expansion2mpf, mpf2multiword/multiword2mpf, float2expansion executed natively; exact values as Fractions from the bit pattern", bound="every float16 bit pattern (65536); float32/float64: every exponent-field value x 2 signs x %d fraction fields (boundary + seeded pseudo-random) = %d / %d inputs; cross-type expansions: %d seeded values per type pair" % (len(sample_bits(numpy.float32, tier, numpy.random.default_rng(0))) // 512, counts["float32"], counts["float64"], ncross), counted_as_proved=False))
 
 
@@ -613,6 +666,8 @@ def replay_b(o):
 
 def witness_class_b(oid, fails):
     name = oid.split("/")[2]
+    if name == "special-values":
+        return "special-values/%s: %s" % (oid.split("/")[3], ", ".join(sorted({str(f.get("x")) for f in fails})))
     if fails and all(int(f.get("bits", "0x1"), 16) in (0x8000, 0x80000000, 0x8000000000000000) for f in fails):
         return "%s: negative zero only" % name
     return "%s: %s" % (name, ", ".join(sorted({str(f.get("bits") or f.get("x")) for f in fails})[:3]))
